@@ -69,3 +69,11 @@ def r3_c08(scn, v):
             if ws[j] not in rch[ws[i]] and ws[i] not in rch[ws[j]]:
                 return False
     return True
+
+
+def r17_c09(scn, v):
+    """R17: the pause lands before the last action reports, so the workflow comes to rest paused with
+    nothing left and the resume request completes it directly; no task execution is flagged terminal
+    on that path, so the output is rendered from the initial context and published values are lost."""
+    d = v.detail or {}
+    return v.kind in ("output-differs", "status-after-output-differs") and bool(d.get("completed_on_resume"))
